@@ -495,6 +495,20 @@ def run(ctx):
                         ubranch.extend([None] * (len(arr) - 1))
                     else:
                         masks.append((i, 0))
+        if not masks:
+            # the digits written in one go: `output.extend(SHIFTS.iter().map(|shift| DIGITS[(n >> shift) & 0xf]))` over a constant array of shifts
+            for c in et.calls:
+                if c.name != "extend" or len(c.args) < 2 or not any(d.startswith("Lt(") and l == "true" for d, l, _ in dom_guards(et, c.block)):
+                    continue
+                m_ = re.match(r"^map\((?:iter|into_iter)\((\w+)\), ", describe_operand(et, c.args[1]))
+                cst = [v for k, v in md.consts.items() if m_ and k.endswith("::" + m_.group(1)) and isinstance(v.get("elems"), list)]
+                masked = [cb for cb in md.closures_of(et.defpath) for i2, j2, p2, rv2, l2 in cb.assigns()
+                          if rv2[0] == "bin" and rv2[1] == "BitAnd" and describe_operand(cb, rv2[3]) == "15" and re.match(r"^(shr|Shr(Unchecked)?)\(", describe_operand(cb, rv2[2]))]
+                if cst and masked and all(isinstance(x, int) for x in cst[0]["elems"]):
+                    for k_, sh in enumerate(cst[0]["elems"]):
+                        masks.append((c.block + k_ * 0.001, sh))
+                        ubranch.append(None)
+                        ub_calls.append(c)
         # order of emission = dominance order of the four index computations
         masks.sort(key=lambda x: (sum(1 for y in masks if int(y[0]) != int(x[0]) and et.dominates(int(y[0]), int(x[0]))), x[0]))
         shifts = [k for _, k in masks]
